@@ -2,6 +2,7 @@
 EXTENDS XrlWrapCxx, XrlChunks
 BadOf(i, ev) == IF ev.k = "xcls" THEN (IF ClassWhy(ev) = "" THEN {} ELSE {[prop |-> "C18", line |-> i, fn |-> ev.fn, argc |-> ev.argc, why |-> ClassWhy(ev), c_ok |-> ev.c_ok, c_code |-> ev.c_code, thrown |-> ev.thrown, n |-> ev.n, witness |-> ev.w]})
                 ELSE IF ev.k = "skipped" THEN {[prop |-> "C18", note |-> TRUE, line |-> i, fn |-> ev.fn, why |-> "wrapper of xraylib++.h could not be joined with a C prototype of a signature the harness generator knows: not driven"]}
+                ELSE IF ev.k = "mt" /\ ev.mismatch # 0 THEN {[prop |-> "C18", line |-> i, why |-> "wrapper calls made from several threads at once: an exception carried another message (or class) than the C function reports for the same arguments, or a value differed from the serial one", threads |-> ev.threads, calls |-> ev.calls, mismatch |-> ev.mismatch]}
                 ELSE {}
 Judged == JudgedWith(BadOf)
 ============================================================================
